@@ -329,6 +329,16 @@ func (c *Check) depositPayer(rule string) {
 				// the signer itself, or an address the path has checked to equal the signer (the stored owner after the owner check)
 				okPayer := e.From.String() == en.SignerTerm() || equalsFact(c.closeFacts(e.Guards), en.SignerTerm(), e.From.String())
 				c.req(okPayer, rule, effConstruct(en.Msg, e), e.Pos, "payer "+shortTerm(e.From)+" is the signer "+en.Signer)
+				// "a binding's deposit grows only by amounts its OWNER sends": for a binding that already exists the transfer is
+				// dominated by found ∧ Equals(signer, stored binding.Owner)
+				if gb := c.getterByType("ServiceBinding"); gb != nil && en.Msg != "MsgBindService" {
+					load := fmt.Sprintf("(res 0 (%s %s %s))", gb.Name, en.Field("ServiceName"), en.Field("Provider"))
+					found := fmt.Sprintf("(res 1 (%s %s %s))", gb.Name, en.Field("ServiceName"), en.Field("Provider"))
+					g := c.closeFacts(e.Guards)
+					_, f1 := hasFact(g, found, false)
+					c.req(f1 && equalsFact(g, en.SignerTerm(), "(.ServiceBinding.Owner "+load+")"), rule, effConstruct(en.Msg, e)+"#owner", e.Pos,
+						"a top-up of an existing binding is dominated by found ∧ Equals(signer, stored binding.Owner)")
+				}
 			}
 		}
 	}
